@@ -7,6 +7,8 @@ import (
 	"errors"
 	"fmt"
 	"strings"
+	"sync"
+	"sync/atomic"
 
 	"github.com/wollac/iota-crypto-demo/pkg/bip39"
 	"golang.org/x/text/unicode/norm"
@@ -18,7 +20,7 @@ import (
 func init() {
 	fw.Register(&fw.Prop{
 		ID: "C03",
-		Rule: "wordlist: all 2048 indices of both built-in lists are read through EntropyToMnemonic (11 chosen indices per call) and compared with the official lists (embedded, SHA-256 checked against the published digests). encode: both lists x all 13 entropy lengths x {all-zero, all-one, k leading zero bytes for every k, trailing zero bytes, a single set bit at every position, random} plus sizes 0..70 for the size rule; sentence equality with the bit-level model and decode(encode(e)) == e. decode: valid sentences, the last word replaced by every word sharing its entropy bits (exactly one checksum value is accepted), one word replaced, rotations, lengths 0..50, words of the other list, NFC-composed words, empty strings: accept iff the model accepts, entropy equality, re-encode fixed point, error class on reject. " +
+		Rule: "wordlist: all 2048 indices of both built-in lists are read through EntropyToMnemonic (11 chosen indices per call) and compared with the official lists (embedded, SHA-256 checked against the published digests). encode: both lists x all 13 entropy lengths x {all-zero, all-one, k leading zero bytes for every k, trailing zero bytes, a single set bit at every position, random} plus sizes 0..70 for the size rule; sentence equality with the bit-level model and decode(encode(e)) == e. decode: valid sentences, the last word replaced by every word sharing its entropy bits (exactly one checksum value is accepted), one word replaced, rotations, lengths 0..50, words of the other list, NFC-composed words, empty strings: accept iff the model accepts, entropy equality, re-encode fixed point, error class on reject. concurrent: 8 goroutines encode and decode entropies of all 13 sizes at once under one word list. " +
 			"Non-trivial: distinct (list, entropy) with a zero leading byte or more than 32 bytes, and distinct rejected sentences.",
 		Assumptions: []string{"SHA-256 of the Go standard library", "the embedded official word lists (checked against the published SHA-256 digests of english.txt and japanese.txt)", "the bit-level model in harness/oracle/bip39m (self-tested on Trezor vectors)"},
 		SelfTest:    bip39m.SelfTest,
@@ -33,6 +35,9 @@ func init() {
 			p := fw.Unpack(key)
 			m := map[string]interface{}{"list": lang(p[0][0])}
 			switch class {
+			case "concurrent":
+				m["seed"] = fw.GetU64(p[1])
+				m["scenario"] = "8 goroutines encode and decode entropies of all 13 sizes"
 			case "wordlist":
 				m["first_index"] = fw.GetU32(p[1])
 			case "encode":
@@ -80,6 +85,8 @@ func judge(class string, key []byte, o *fw.Obs) {
 		return
 	}
 	switch class {
+	case "concurrent":
+		judgeConcurrent(l, fw.GetU64(p[1]), o)
 	case "wordlist":
 		start := int(fw.GetU32(p[1]))
 		// 128-bit entropy whose first 121 bits are the indices start..start+10
@@ -203,6 +210,62 @@ func judge(class string, key []byte, o *fw.Obs) {
 			o.Fail("fixedpoint", "accepted sentence %q re-encodes to %q (err=%v)", wcopy, []string(re), err)
 		}
 	}
+}
+
+// judgeConcurrent: EntropyToMnemonic and MnemonicToEntropy for all 13 sizes from 8 goroutines at once
+// (one word list; the property does not cover concurrent SetWordList); results must equal the model's.
+func judgeConcurrent(l string, seed uint64, o *fw.Obs) {
+	o.Nontrivial()
+	r := fw.SubRng(int64(seed), "c03-concurrent")
+	list := bip39m.Lang(l)
+	type item struct {
+		ent   []byte
+		words []string
+	}
+	var items []item
+	for i := 0; i < 13; i++ {
+		for k := 0; k < 2; k++ {
+			ent := make([]byte, 16+4*i)
+			r.Read(ent)
+			if k == 1 {
+				ent[0] = 0
+			}
+			items = append(items, item{ent, list.Encode(ent)})
+		}
+	}
+	const G = 8
+	var wg sync.WaitGroup
+	var bad atomic.Value
+	for g := 0; g < G; g++ {
+		wg.Add(1)
+		go func(g int) {
+			defer wg.Done()
+			defer func() {
+				if x := recover(); x != nil {
+					bad.Store(fmt.Sprintf("panic in a concurrent call: %v", x))
+				}
+			}()
+			for n := 0; n < 2000 && bad.Load() == nil; n++ {
+				it := items[(n*(g+1)+g)%len(items)]
+				m, err := bip39.EntropyToMnemonic(it.ent)
+				if err != nil || strings.Join(m, " ") != strings.Join(it.words, " ") {
+					bad.Store(fmt.Sprintf("with %d goroutines at work, EntropyToMnemonic(%x) = %q, err=%v; expected %q", G, it.ent, []string(m), err, it.words))
+					return
+				}
+				e, err := bip39.MnemonicToEntropy(bip39.Mnemonic(it.words))
+				if err != nil || !bytes.Equal(e, it.ent) {
+					bad.Store(fmt.Sprintf("with %d goroutines at work, MnemonicToEntropy(%d words) = %x, err=%v; expected %x", G, len(it.words), e, err, it.ent))
+					return
+				}
+			}
+		}(g)
+	}
+	wg.Wait()
+	if b := bad.Load(); b != nil {
+		o.Fail("concurrent", "%s", b.(string))
+		return
+	}
+	o.Count("concurrent executions")
 }
 
 func ar(b bool) string {
@@ -348,6 +411,9 @@ func gen(g *fw.Gen) {
 				w[a], w[b] = w[b], w[a]
 				emitWords(g, l, w)
 			}
+		}
+		for n := g.ShareOf(16, 800); n > 0; n-- {
+			g.Emit("concurrent", fw.Pack([]byte{l}, fw.U64(g.Rng.Uint64())))
 		}
 		emitOnce := func(words []string) {
 			i++
